@@ -25,7 +25,9 @@ Calls == <<
   [fn |-> "backward", tensors |-> <<Y, L1>>, inputs |-> {A, T1}, w |-> <<1, -2, 3>>],
   [fn |-> "backward", tensors |-> <<L2>>, inputs |-> {A, C}, w |-> <<2>>],
   [fn |-> "mtl", losses |-> <<L1, L2>>, feats |-> <<F>>, tparams |-> <<{T1}, {T2}>>, shared |-> {A, Bb}, w |-> <<1, -2>>],
-  [fn |-> "mtl", losses |-> <<L1, L2>>, feats |-> <<F>>, tparams |-> <<{T1}, {T1, T2}>>, shared |-> {A}, w |-> <<3, 1>>] >>
+  [fn |-> "mtl", losses |-> <<L1, L2>>, feats |-> <<F>>, tparams |-> <<{T1}, {T1, T2}>>, shared |-> {A}, w |-> <<3, 1>>],
+  [fn |-> "mtl", losses |-> <<L3, L2>>, feats |-> <<F>>, tparams |-> <<{T1, U1, U2}, {T2}>>, shared |-> {A, Bb}, w |-> <<-1, 2>>],
+  [fn |-> "backward", tensors |-> <<L3>>, inputs |-> {U1, U2, A}, w |-> <<3>>] >>
 EditLeaves == {A, T1, C}
 
 Requested(c) == IF c.fn = "backward" THEN c.inputs
@@ -40,11 +42,11 @@ UpdTable == [i \in DOMAIN Calls |-> [l \in GradLeaves |->
 
 PreContent(l) == [i \in 1..P0[l].size |-> 10 * l + i]
 
-Init == /\ \E pre \in {{}, GradLeaves, {A, T2}} :
+Init == /\ \E pre \in {{}, GradLeaves, {A, T2, U1}} :
               /\ grad  = [l \in GradLeaves |-> IF l \in pre THEN PreContent(l) ELSE None]
-              /\ store = [l \in GradLeaves |-> IF l \in pre THEN l ELSE 0]
+              /\ store = [l \in GradLeaves |-> IF l \in pre THEN l ELSE 0]      \* ids < 20 = initial
               /\ pre0 = pre
-        /\ nextId = 10
+        /\ nextId = 20
         /\ val = Vals(P0)
         /\ hist = <<>>
 
